@@ -176,7 +176,8 @@ PROPS = {
     "C08": dict(
         props="Props/C08.v", tables=["core", "glencoe"],
         src=["py__to_json", "py__get_features_info", "py__get_tree_info", "py__get_constraints_info", "py__get_ctc_info",
-             "py_GlencoeReader__parse_ast_constraint"],
+             "py_GlencoeReader__parse_ast_constraint", "py_GlencoeReader__parse_tree", "py_GlencoeReader__parse_constraints",
+             "py_GlencoeReader_transform"],
         suites=[suite_glencoe.run],
         rule=("suites W-glencoe / R-glencoe: GlencoeWriter.transform() (returned text = file, parsed with json.loads) vs "
               "[glencoe_write]; GlencoeReader on the file vs [glencoe_read] as pointer-annotated models; inputs: random models "
